@@ -324,3 +324,49 @@ func elemIx(off, i string) string {
 	}
 	return "(gs.ix " + off + " " + i + ")"
 }
+
+// catTerm builds a concatenation in left-nested normal form: a + (b + c) is written
+// (a + b) + c. Concatenation is associative for strings, the solver is not told so (the
+// axiom destabilises proofs), and code that writes "x" and then " " must denote the same
+// text as code that writes "x"+" " at once.
+func catTerm(a, b string) string {
+	if strings.HasPrefix(b, "(gs.cat ") {
+		if b1, b2, ok := splitTwoArgs(b[len("(gs.cat ") : len(b)-1]); ok {
+			return catTerm(catTerm(a, b1), b2)
+		}
+	}
+	return app("gs.cat", a, b)
+}
+
+// splitTwoArgs splits "<sexp> <sexp>" into its two s-expressions.
+func splitTwoArgs(s string) (string, string, bool) {
+	depth := 0
+	for i := 0; i < len(s); i++ {
+		switch s[i] {
+		case '(':
+			depth++
+		case ')':
+			depth--
+		case ' ':
+			if depth == 0 {
+				a, b := s[:i], strings.TrimSpace(s[i+1:])
+				// the rest must be exactly one s-expression
+				d := 0
+				for j := 0; j < len(b); j++ {
+					switch b[j] {
+					case '(':
+						d++
+					case ')':
+						d--
+					case ' ':
+						if d == 0 {
+							return "", "", false
+						}
+					}
+				}
+				return a, b, a != "" && b != ""
+			}
+		}
+	}
+	return "", "", false
+}
